@@ -48,6 +48,9 @@ func (s *sliceLex) Next() (lexer.Token, error) {
 
 func c0102Child(mode string) mon.ChildFunc {
 	return func(c *mon.Child) {
+		if mode == "C01" && c.Batch == 0 {
+			c01NestedCaptures(c)
+		}
 		nInputs := c.N(120, 220)
 		ks := allKs
 		if mode == "C02" {
